@@ -14,8 +14,8 @@ import pilgen
 from core import Result
 
 LEVEL = "proof"
-LEVEL_NOTE = ("error <-> unsatisfiable is a theorem over the parity closure of the seeded graph; the identification of that "
-              "closure with the semantic link closure is proved in the soundness direction, the other direction by correspondence")
+LEVEL_NOTE = ("error <-> unsatisfiable is a theorem for both layouts (struct: every non-empty strand placed), incl. totality "
+              "of the seeding; the model<->code tie is validated by correspondence")
 
 
 def check_doc(res, d, stmts, text, meta, reqs, expect):
